@@ -33,7 +33,7 @@ func laneGate2(c *ev.Ctx, id, first, second string) {
 		return
 	}
 	defer env.Close()
-	w := &world{c: c, env: env, root: env.Client(0)}
+	w := &world{c: c, env: env, root: c17Client(env)}
 	if err := w.setupOpenBucket(); err != nil {
 		c.Inconclusive(err.Error())
 		return
